@@ -4,6 +4,84 @@
 use super::*;
 use crate::verif_common::*;
 
+use crate::output::Output;
+use crate::vm::State;
+
+struct CountingSink {
+    bytes: usize,
+}
+
+impl std::fmt::Write for CountingSink {
+    fn write_str(&mut self, s: &str) -> std::fmt::Result {
+        self.bytes += s.len();
+        Ok(())
+    }
+}
+
+fn c12_mode(k: u8) -> UndefinedBehavior {
+    match k {
+        0 => UndefinedBehavior::Chainable,
+        1 => UndefinedBehavior::Lenient,
+        2 => UndefinedBehavior::SemiStrict,
+        _ => UndefinedBehavior::Strict,
+    }
+}
+
+fn passthrough_formatter(out: &mut Output, state: &mut State, value: &Value) -> Result<(), Error> {
+    crate::defaults::escape_formatter(out, state, value)
+}
+
+macro_rules! format_undefined_harness {
+    ($name:ident, $custom:expr, $silent:expr) => {
+        #[kani::proof]
+        #[kani::unwind(4)]
+        #[kani::stub(std::hash::RandomState::new, crate::verif_common::random_state_stub)]
+        #[kani::stub(alloc::fmt::format, crate::verif_common::format_stub)]
+        fn $name() {
+            let mk: u8 = kani::any();
+            kani::assume(mk < 4);
+            let mut env = Environment::empty();
+            env.set_undefined_behavior(c12_mode(mk));
+            if $custom {
+                env.set_formatter(passthrough_formatter);
+            }
+            let env: &'static Environment<'static> = Box::leak(Box::new(env));
+            let mut state = State::new_for_env(env);
+            let mut sink = CountingSink { bytes: 0 };
+            let v = if $silent {
+                Value(ValueRepr::Undefined(UndefinedType::Silent))
+            } else {
+                Value::UNDEFINED
+            };
+            let r = {
+                let mut out = Output::new(&mut sink);
+                let r = env.format(&v, &mut state, &mut out);
+                core::mem::forget(out);
+                r
+            };
+            // printing an undefined fails under Strict and SemiStrict and yields nothing otherwise;
+            // the silent undefined of `x if c` (no else) prints as nothing in every mode
+            let must_fail = !$silent && mk >= 2;
+            match r {
+                Ok(()) => assert!(!must_fail && sink.bytes == 0),
+                Err(ref e) => {
+                    assert!(must_fail);
+                    assert!(matches!(e.kind(), ErrorKind::UndefinedError));
+                }
+            }
+            kani::cover!(mk == 3);
+            kani::cover!(mk == 1);
+            core::mem::forget((r, state, v));
+        }
+    };
+}
+
+// @verif-block props=C12 tier=quick cap=600 group=core doc=Environment::format_(the_print_site)_on_an_undefined_value_under_ALL_4_modes,_with_the_default_formatter_and_with_a_custom_pass-through_formatter_installed:_fails_with_UndefinedError_under_Strict_and_SemiStrict,_writes_nothing_otherwise;_a_silent_undefined_never_fails
+format_undefined_harness!(c12_print_undefined_default_formatter, false, false);
+format_undefined_harness!(c12_print_undefined_custom_formatter, true, false);
+format_undefined_harness!(c12_print_silent_undefined, false, true);
+// @verif-end
+
 #[cfg(test)]
 mod playback {
     use super::*;
